@@ -97,6 +97,11 @@ func specItems(prop string, sp *Spec, bound int, strats []int, tags []string, or
 				out.Events = append(out.Events, tags...)
 				sort.Strings(out.Events)
 				out.Obs = x.Obs() + "|" + res.Verdict
+				if DumpRaw {
+					for _, w := range x.Writes {
+						out.Obs += fmt.Sprintf("\nRAW@%d %q", w.Step, w.Data)
+					}
+				}
 				switch {
 				case res.Verdict != "":
 					out.Violation = res.Verdict
@@ -119,6 +124,9 @@ func specItems(prop string, sp *Spec, bound int, strats []int, tags []string, or
 	}
 	return out
 }
+
+// DumpRaw (debugging aid of `mc run`): append the raw output writes to the observation.
+var DumpRaw bool
 
 var allStrats = []int{mcrt.StratFIFO, mcrt.StratOldest, mcrt.StratNewest}
 
